@@ -122,7 +122,7 @@ PROPS["C17"] = {
     "technique": "Lean 4: evaluation at any root of X^n+1 is a ring map on coefficient lists, hence every Babai step / the whole loop preserves f*G-g*F for every quotient; idempotence from the exit condition; Z_p table obligations by kernel evaluation; both Rust reductions executed on the same inputs with an exact big-integer oracle",
     "rule": "ops = Z_p element operations on boundary/random operands, Z_p transform of unit vectors for every length and products vs the exact integer product, babai_reduce_i32 and babai_reduce_bigint on (F,G) = (F0,G0) + k*(f,g) for n = 2..256 (thorough: ..1024) with quotients from 0 to just below 2^24, the zero-reducing case, plus a traced op per case whose invariant is recomputed exactly by the Lean model; distinct by op line; judged: both versions agree, f*G-g*F unchanged over Z (i128 schoolbook), second reduction is the identity",
     "exhaustive": {"quick": (False, ""), "thorough": (False, "")},
-    "level_text": "Machine-checked for all n and all integer polynomials: a reduction step with ANY quotient k, and the whole loop with any sequence of quotients, leaves f*G - g*F unchanged in Z[X]/(X^n+1); the loop's exit condition makes a second reduction the identity; the 30-bit prime's twiddle tables and n^-1 constants are consistent, and on them the Z_p transform pair is exact: intt(ntt a) = a and intt(ntt a . ntt b) = a*b mod (X^n+1, p) for every n = 2..1024 (zp_intt_ntt, zp_ntt_mul_exact), so with the balanced lift the 32-bit path's products are the integer products whenever they fit below p/2. NOT proved: that the two floating-point quotient computations (32-bit and big-integer path) agree and that the 32-bit path stays inside its exactness window for all inputs below 2^24 - both functions are executed side by side on every run.",
+    "level_text": "Machine-checked for all n and all integer polynomials: a reduction step with ANY quotient k, and the whole loop with any sequence of quotients, leaves f*G - g*F unchanged in Z[X]/(X^n+1); the loop's exit condition makes a second reduction the identity; the 30-bit prime's twiddle tables and n^-1 constants are consistent, and on them the Z_p transform pair is exact: intt(ntt a) = a and intt(ntt a . ntt b) = a*b mod (X^n+1, p) for every n = 2..1024 (zp_intt_ntt, zp_ntt_mul_exact), and the whole chain U32Field::new -> fft -> pointwise product -> ifft -> balanced_value returns exactly the integer product k*f whenever its coefficients are within +-(p-1)/2, without overflow in either build mode (zp_product_is_the_integer_product). NOT proved: that the two floating-point quotient computations (32-bit and big-integer path) agree and that the 32-bit path stays inside its exactness window for all inputs below 2^24 - both functions are executed side by side on every run.",
     "level_note": "Trusted: Lean kernel + Mathlib ring tactics; translator (p, tables); the float quotient is an oracle parameter of the model (universally quantified in the theorems).",
     "trusted_base": TB_COMMON + ["num-bigint modelled by Lean Int; num-complex / f64 FFT quotient computation is a universally quantified parameter of the theorems"],
     "assumptions": [],
